@@ -110,7 +110,9 @@ pub fn generate(seed: u64, fault_free: bool) -> IoOut {
                     1 => var("reverse"),
                     2 => lam1("ls", bin(var("ls"), "map", var("len"))),
                     // a lazy result whose elements print while `interact_lines` is writing
-                    3 | 4 => lam1("ls", printing_lazy(var("ls"))),
+                    // (lazy_map wants a stream: `stream(ls)`; on the bare list HEAD refuses)
+                    3 => lam1("ls", printing_lazy(call("stream", vec![var("ls")]))),
+                    4 => lam1("ls", printing_lazy(var("ls"))),
                     5 => lam1("ls", printing_lazy(bin(int(1), "to", int(2)))),
                     // ... or mutate a session variable
                     6 => lam1(
